@@ -204,6 +204,8 @@ func runHelpers(tab *numTable, B []*big.Int) int {
 	return n
 }
 
+const mathPairBudget = 60000
+
 func runMath(B []*big.Int) int {
 	var vals []int64
 	for _, v := range B {
@@ -219,9 +221,15 @@ func runMath(B []*big.Int) int {
 		}
 		var xs, ys, rs []string
 		var ov []bool
+		// quick: every 5th pair; thorough: about mathPairBudget pairs per function (all pairs of ~2000 values would be 4 million per
+		// function: more than the model side can evaluate in the time of a check). Pairs with MinInt64 or -1 are always taken.
+		stride := 5
+		if thorough {
+			stride = len(vals)*len(vals)/mathPairBudget + 1
+		}
 		for i, x := range vals {
 			for j, y := range vals {
-				if !thorough && (i*31+j*17)%5 != 0 && !(x == math.MinInt64 || y == math.MinInt64 || y == -1 || x == -1) {
+				if (i*31+j*17)%stride != 0 && !(x == math.MinInt64 || y == math.MinInt64 || y == -1 || x == -1) {
 					continue
 				}
 				if (name == "floorDiv" || name == "floorMod") && y == 0 {
